@@ -250,6 +250,10 @@ def chain_records(kw):
             live = transition_with_copy(tf, live, Action[aname], rng=np.random.default_rng(sd))
         except Exception:
             break
+        # a defective step may leave the state space (agent outside the grid): the record above reports it, and the
+        # rules have nothing to say about what follows from an invalid state
+        if not live.grid.area.contains(live.agent.position) or live.grid.shape != proj.state_from_json(start).grid.shape:
+            break
     return out
 
 
